@@ -86,7 +86,7 @@ def _free(t):
 class SymTeam:
     """a team with a symbolic number of members (see the module docstring)"""
 
-    def __init__(self, ctx, rating_cls, index, tag=""):
+    def __init__(self, ctx, rating_cls, index, tag="", sigma_pos=True):
         self.index = self._pyvc_index = index
         self.tag = tag
         self.L = z3.Int(f"{tag}L_{index}")
@@ -98,10 +98,12 @@ class SymTeam:
         self.other_sums = {}
         ctx.assume(self.L >= 1)
         ctx.assume(z3.And(self.k >= 0, self.k < self.L))
-        ctx.assume(sg.t > 0)
         # A-sum: a sum of non-negative addends dominates each addend; L >= 1 members with sigma > 0
+        # (predictions allow sigma = 0: then only s >= sigma_k^2 >= 0)
+        ctx.assume(sg.t > 0 if sigma_pos else sg.t >= 0)
         ctx.assume(self.s.t >= sg.t * sg.t)
-        ctx.assume(self.s.t > 0)
+        if sigma_pos:
+            ctx.assume(self.s.t > 0)
         self.root = self
 
     # -- a second / third arbitrary member: the same terms with fresh Skolem symbols
